@@ -13,6 +13,7 @@
   the explicitly grouped meaning.
 -/
 import GruleModel.Json.Sem
+import GruleModel.Proofs.QuoteRoundTrip
 namespace Grule.C18
 open Grule Grule.Json Grule.Syntax
 
@@ -122,6 +123,15 @@ example : fmtNumber 0x412E848000000000 = "1000000".toList ∧ fmtNumber 0x43E158
 example : okIs (quoteGo "a\"b\\c\n\x01é".toList) "\"a\\\"b\\\\c\\n\\x01é\"" = true := by decide +kernel
 example : unquote "\"a\\\"b\\\\c\\n\\x01é\"".toList = .ok "a\"b\\c\n\x01é".toList := by decide +kernel
 
+/-- **String constants round-trip exactly whatever characters they contain**: the literal `strconv.Quote` writes
+    (`quoteGo`) is read back by the listener's `unquoteString` (`unquote`) as exactly the same string — every length,
+    every code point of the modelled `IsPrint` table (all of ASCII with quotes, backslashes, control characters; the listed
+    printable and unprintable non-ASCII code points). `Proofs/QuoteRoundTrip.lean`. -/
+theorem C18_const_string (s q : List Char) (h : quoteGo s = .ok q) : unquote q = .ok s :=
+  QuoteRoundTrip.C18_const_string s q h
+
+example : (match quoteGo "a\"b\\\n\x01é".toList with | .ok _ => true | .error _ => false) = true := by decide +kernel
+
 #print axioms C18_unknown_operator
 #print axioms C18_two_keys
 #print axioms C18_empty_object
@@ -134,5 +144,6 @@ example : unquote "\"a\\\"b\\\\c\\n\\x01é\"".toList = .ok "a\"b\\c\n\x01é".toL
 #print axioms C18_missing_parts
 #print axioms C18_ruleset_all_or_nothing
 #print axioms C18_operand_wrapped
+#print axioms C18_const_string
 
 end Grule.C18
